@@ -26,3 +26,5 @@ def run(rep):
     pr.rule_siblings(rep)
     br.rule_tags_ast(rep, "C02.attach")
     br.rule_rw(rep, "C02.rw", "C02.flow")
+    # the lines looked past are replayed in document order: the machine above reads them in the order the scanner produced them
+    pr.rule_queue(rep, "C02.queue")
